@@ -1173,4 +1173,24 @@ pub proof fn lemma_u64_bytes(x: u64, b: Seq<u8>)
     vstd::arithmetic::div_mod::lemma_small_mod(x as nat, pow256(8));
 }
 
+// ------------------------------------------------------------------------------------------------
+// known-answer test pinning the RFC-level spec functions (RFC 8439 section 2.5.2)
+// ------------------------------------------------------------------------------------------------
+pub proof fn kat_rfc8439_2_5_2()
+    ensures
+        poly1305_spec(
+            seq![0x85u8, 0xd6u8, 0xbeu8, 0x78u8, 0x57u8, 0x55u8, 0x6du8, 0x33u8, 0x7fu8, 0x44u8, 0x52u8, 0xfeu8, 0x42u8, 0xd5u8, 0x06u8, 0xa8u8, 0x01u8, 0x03u8, 0x80u8, 0x8au8, 0xfbu8, 0x0du8, 0xb2u8, 0xfdu8, 0x4au8, 0xbfu8, 0xf6u8, 0xafu8, 0x41u8, 0x49u8, 0xf5u8, 0x1bu8],
+            seq![0x43u8, 0x72u8, 0x79u8, 0x70u8, 0x74u8, 0x6fu8, 0x67u8, 0x72u8, 0x61u8, 0x70u8, 0x68u8, 0x69u8, 0x63u8, 0x20u8, 0x46u8, 0x6fu8, 0x72u8, 0x75u8, 0x6du8, 0x20u8, 0x52u8, 0x65u8, 0x73u8, 0x65u8, 0x61u8, 0x72u8, 0x63u8, 0x68u8, 0x20u8, 0x47u8, 0x72u8, 0x6fu8, 0x75u8, 0x70u8],
+        ) == seq![0xa8u8, 0x06u8, 0x1du8, 0xc1u8, 0x30u8, 0x51u8, 0x36u8, 0xc6u8, 0xc2u8, 0x2bu8, 0x8bu8, 0xafu8, 0x0cu8, 0x01u8, 0x27u8, 0xa9u8],
+{
+    let key = seq![0x85u8, 0xd6u8, 0xbeu8, 0x78u8, 0x57u8, 0x55u8, 0x6du8, 0x33u8, 0x7fu8, 0x44u8, 0x52u8, 0xfeu8, 0x42u8, 0xd5u8, 0x06u8, 0xa8u8, 0x01u8, 0x03u8, 0x80u8, 0x8au8, 0xfbu8, 0x0du8, 0xb2u8, 0xfdu8, 0x4au8, 0xbfu8, 0xf6u8, 0xafu8, 0x41u8, 0x49u8, 0xf5u8, 0x1bu8];
+    let msg = seq![0x43u8, 0x72u8, 0x79u8, 0x70u8, 0x74u8, 0x6fu8, 0x67u8, 0x72u8, 0x61u8, 0x70u8, 0x68u8, 0x69u8, 0x63u8, 0x20u8, 0x46u8, 0x6fu8, 0x72u8, 0x75u8, 0x6du8, 0x20u8, 0x52u8, 0x65u8, 0x73u8, 0x65u8, 0x61u8, 0x72u8, 0x63u8, 0x68u8, 0x20u8, 0x47u8, 0x72u8, 0x6fu8, 0x75u8, 0x70u8];
+    let tag = seq![0xa8u8, 0x06u8, 0x1du8, 0xc1u8, 0x30u8, 0x51u8, 0x36u8, 0xc6u8, 0xc2u8, 0x2bu8, 0x8bu8, 0xafu8, 0x0cu8, 0x01u8, 0x27u8, 0xa9u8];
+    assert(poly_p() == 0x3_ffff_ffff_ffff_ffff_ffff_ffff_ffff_fffbnat) by (compute_only);
+    assert(poly_r(key) == 0x806d5400e52447c036d555408bed685nat) by (compute_only);
+    assert(poly_s(key) == 0x1bf54941aff6bf4afdb20dfb8a800301nat) by (compute_only);
+    assert(poly1305_tag_nat(key, msg) == 0xa927010caf8b2bc2c6365130c11d06a8nat) by (compute_only);
+    assert(poly1305_spec(key, msg) =~= tag) by (compute_only);
+}
+
 } // verus!
